@@ -2,5 +2,5 @@
 
 package fp448
 
-// c14Backend: fp_noasm.go is compiled, every operation is the *Generic routine.
-func c14Backend() string { return "generic" }
+// fp_noasm.go is compiled: every operation is the *Generic routine.
+func init() { C14ReadBackend = func() string { return "generic" } }
